@@ -364,3 +364,39 @@ def measure_anchor_coverage(fn):
                      "missing_lines_inside_functions": missing_fn[:60]}
     except Exception as ex:
         return res, {"available": False, "error": repr(ex)}
+
+
+# ----------------------------------------------------------------------------- model <-> source tie
+
+
+def theorem_names(cid):
+    import re
+    src = open(os.path.join(C.COQ, "props", cid + ".v")).read()
+    src = re.sub(r"\(\*.*?\*\)", "", src, flags=re.S)
+    return re.findall(r"^\s*Theorem\s+([A-Za-z0-9_']+)", src, flags=re.M)
+
+
+def broken_kind(build_err, props):
+    if build_err is not None:
+        return ("broken proof obligation: the source-to-Coq translator aborted or the build failed (%s); "
+                "the gen_* = model obligations were not re-checked" % build_err.what)
+    missing = [t for t in props["theorems"][props["discharged"]:]]
+    if missing and all("_gen_" in t for t in missing):
+        return ("broken proof obligation: the functions regenerated from isoparser.py (coq/gen/IsoGen.v) are no longer "
+                "proved equal to the hand model: " + ", ".join(missing[:4]))
+    return "broken proof obligation"
+
+
+def model_tie(build_err, props):
+    gen = [t for t in props["theorems"] if "_gen_" in t]
+    return {
+        "how": "coq/gen/IsoGen.v is regenerated from VERIF_REPO/src/dateutil/parser/isoparser.py by the fail-closed "
+               "Python-ast translator harness/gen_iso.py on this run; coq/iso/IsoGenThm.v proves every translated "
+               "function equal to the hand model for all inputs; the differential run below additionally compares the "
+               "running implementation with the extracted model and spec",
+        "translator_aborted": build_err is not None,
+        "translator_message": (build_err.log[-400:] if build_err is not None else ""),
+        "gen_obligations": gen,
+        "gen_obligations_discharged": [t for t in gen if t in props["theorems"][:props["discharged"]]],
+        "hand_modelled_and_pinned_by_ast_hash": ["_takes_ascii", "isoparser.__init__", "module tail"],
+    }
